@@ -17,7 +17,10 @@ for d in sorted(glob.glob(os.path.join(VERIF, 'seeded', '*'))):
     c = m.get('confirmation', {})
     ok = c.get('suite_passes_with_change') and c.get('demo_fails_with_change') and c.get('demo_passes_without_change')
     caught = ', '.join(m.get('caught_by', [])) or '**missed**'
-    hist = 'first missed, check strengthened' if m.get('history') else ''
+    h = m.get('history') or {}
+    hist = ('first missed; ' + h.get('strengthening', 'check strengthened')) if str(h.get('first_run', '')).startswith('MISSED') else ''
+    if os.environ.get('WAVE') and str(m.get('wave', 1)) != os.environ['WAVE']:
+        continue
     rows.append(f"| {m['id']} | {title} | {'yes' if ok else 'NO'} | {caught} | {hist} |")
 print('| id | change (as described by its author) | confirmed (suite passes, demo fails with / passes without) | caught by (quick tier) | note |')
 print('|---|---|---|---|---|')
